@@ -184,7 +184,24 @@ def check(ctx, rep):
                 if modearg is None:
                     continue  # reading (the default of open(); of dbm/shelve: "r" / "c" never written by a saver)
                 if isinstance(modearg, ast.Name) and modearg.id in g.params:
-                    continue  # handed through: judged at the caller's open
+                    # handed through: judged at the calls of this helper inside the writer's closure
+                    pidx = g.params.index(modearg.id) - (1 if g.cls is not None and g.params[:1] in (["self"], ["cls"]) else 0)
+                    for g2 in (closure if g.name != "open" else []):
+                        for c2 in ast.walk(g2.node):
+                            if isinstance(c2, ast.Call) and ((isinstance(c2.func, ast.Attribute) and c2.func.attr == g.name) or
+                                                             (isinstance(c2.func, ast.Name) and c2.func.id == g.name)) and g2 is not g:
+                                a2 = c2.args[pidx] if len(c2.args) > pidx else next((k.value for k in c2.keywords if k.arg == modearg.id), None)
+                                vals2 = _possible_constants(a2, g2) if a2 is not None else None
+                                if vals2 is None:
+                                    continue
+                                writing2 = [v for v in vals2 if isinstance(v, str) and any(ch in v for ch in "wax+")]
+                                if not writing2:
+                                    continue
+                                wrong2 = [v for v in writing2 if not (v.startswith("w") or v.startswith("x"))]
+                                rep.add("R11e", f"{g2.qualname}: {norm(c2)[:60]}", not wrong2, ctx.where(g2, c2),
+                                        "" if not wrong2 else f"the cache is opened with mode {wrong2[0]!r} (through {g.name}): what is there already stays until it "
+                                        "is overwritten, so a cut-off write leaves new bytes followed by old ones", key=f"R11e|{g2.qualname}|{g.name}")
+                    continue
                 vals = _possible_constants(modearg, g)
                 label = f"{g.qualname}: {norm(n)[:60]}"
                 if vals is None:
